@@ -15,6 +15,21 @@ pub mod seq_inv;
 pub mod subjects;
 pub mod timed;
 
+/// A panic raised inside the instrumented copy of the crate (not in harness code): for the
+/// checks that compare what was delivered with a defined output this is a violation - the
+/// output was not produced. The model-free invariant checks only class such runs as aborted.
+pub fn crate_panic(o: &arx_rt::Outcome) -> Option<String> {
+  if o.kind != arx_rt::Kind::Panic {
+    return None;
+  }
+  let inside: Vec<&String> = o.panics.iter().filter(|p| p.contains("flat.rs")).collect();
+  if inside.is_empty() {
+    None
+  } else {
+    Some(format!("the crate panicked instead of delivering the defined output: {}", inside.iter().map(|s| s.as_str()).collect::<Vec<_>>().join("; ")))
+  }
+}
+
 #[derive(Clone)]
 pub struct Ctx {
   pub tier: Tier,
